@@ -40,15 +40,22 @@ inductive LeafKind
   | tagPAMBlockData | unTagPAMBlockData | calculatePAMErrors
   deriving DecidableEq, Repr, Inhabited
 
-/-- What a leaf can write into the circuit, classified against the configuration's machine model.
-Obtained by the translator by RUNNING the leaf's effective layer generator / template generator /
-deterministic rule on a dummy input under the model (never from a table). -/
+/-- What a leaf can write into the circuit, classified against the configuration's machine model,
+and whether it raises.  Obtained by the translator by RUNNING the leaf's effective layer generator
+/ template generator / deterministic rule on a dummy input under the model (never from a table);
+every leaf that calls `Circuit.instantiate` (QSearch, LEAP, ScanningGateRemoval, AutoRebase, the
+permutation-aware wrappers) is itself run in-process on a dummy target of the kind (unitary /
+state / state system) and the widths it sees, with its own cost generator and instantiate options:
+a cost generator / minimizer mismatch, a gate set no instantiater accepts, a target type the leaf
+cannot handle or a layer generator that cannot expand show up as `raise1` / `raiseN`. -/
 structure Emit where
   sq : Bool := false      -- emits a single-qudit gate that is not native
   g2 : Bool := false      -- emits a two-qudit gate that is not native
   many : Bool := false    -- emits a >= 3-qudit gate that is not native
   nmany : Bool := false   -- emits a native >= 3-qudit gate
-  fails : Bool := false   -- the dummy run raised
+  fails : Bool := false   -- the dummy run of a deterministic rule / template generator raised
+  raise1 : Bool := false  -- the REAL numeric leaf, run on a dummy one-qudit input, raised
+  raiseN : Bool := false  -- ... on a dummy input of two or more qudits
   deriving DecidableEq, Repr, Inhabited
 
 /-- `ScanningGateRemovalPass.collection_filter` / `ForEachBlockPass.collection_filter`. -/
@@ -137,6 +144,8 @@ structure ModelFacts where
   swapNative : Bool := false    -- SwapGate is native
   allToAll : Bool := true       -- the coupling graph is complete
   prefixCoupled : Bool := true  -- the first `input width` qudits induce a connected subgraph
+  minCapable : Bool := true     -- `Minimization.is_capable` of a circuit of the model's own gates
+  anyCapable : Bool := true     -- some instantiater of `instantiater_order` is capable of it
   deriving DecidableEq, Repr, Inhabited
 
 structure Cfg where
@@ -368,6 +377,10 @@ def assume (c : Cfg) : Pred → Bool → AState → AState
 
 /-! ## Leaf contracts -/
 
+/-- The leaf raised in a dummy run at a width the abstract state allows. -/
+def emitRaise (e : Emit) (a : AState) : Bool :=
+  (e.raise1 && decide (a.wLo ≤ 1)) || (e.raiseN && decide (2 ≤ a.wHi))
+
 /-- Contract of a search-based synthesis leaf (`SynthesisPass.run`: the circuit BECOMES
 `synthesize(data.target)`): content = what the layer generator can emit; coupling is respected
 w.r.t. the model the pass sees (so it may be violated when the connectivity is hidden and the
@@ -381,7 +394,7 @@ def postSynth (c : Cfg) (h : Hyps) (o : Opts) (a : AState) : AState :=
     uncoupled := (a.hidden && !c.m.allToAll) || a.noModel,
     measHazard := a.measHazard || a.meas,
     circBad := a.tgtBad || !h.numOK, numeric := true,
-    crash := a.crash || o.emit.fails }
+    crash := a.crash || o.emit.fails || emitRaise o.emit a }
 
 def post (c : Cfg) (h : Hyps) (k : LeafKind) (o : Opts) (a : AState) : AState :=
   match k with
@@ -412,10 +425,14 @@ def post (c : Cfg) (h : Hyps) (k : LeafKind) (o : Opts) (a : AState) : AState :=
       -- template is within the threshold of data.target
       { a with f2 := o.emit.g2 || (a.blocks && a.f2), fSQ := a.fSQ || o.emit.sq,
                circBad := a.circBad || a.tgtBad, numeric := true,
-               crash := a.crash || o.emit.fails }
+               -- the templates are built unconditionally; `Circuit.instantiate` is only
+               -- reached when a foreign two-qudit gate is there to be rebased
+               crash := a.crash || o.emit.fails
+                 || (o.emit.raiseN && a.f2 && decide (2 ≤ a.wHi)) }
   | .scanningGateRemoval =>
       { a with fSQ := if o.coll == .sq && !c.m.hasSQ && h.delOK then false else a.fSQ,
-               circBad := a.circBad || a.tgtBad, numeric := true }
+               circBad := a.circBad || a.tgtBad, numeric := true,
+               crash := a.crash || emitRaise o.emit a }
   | .qsearch | .leap | .pas => postSynth c h o a
   | .generalSQDecomposition | .zxzxzDecomposition =>
       { a with fSQ := o.emit.sq, blocks := false, nested := false, deep := false,
@@ -508,10 +525,10 @@ def feExit (_c : Cfg) (h : Hyps) (o : Opts) (a r : AState) : AState :=
 /-- Outer effect of a pass that owns an inner synthesis pass, given the inner's abstract result
 `r` on the outer state.  EmbedAllPermutationsPass only records circuits in the pass data;
 PermutationAwareSynthesisPass returns the best permuted synthesis and writes the mappings. -/
-def wrapExit (_c : Cfg) (k : LeafKind) (_o : Opts) (a r : AState) : AState :=
+def wrapExit (_c : Cfg) (k : LeafKind) (o : Opts) (a r : AState) : AState :=
   match k with
-  | .pas => { r with mapped := true }
-  | _ => { a with crash := a.crash || r.crash, pd2 := a.pd2 || r.f2, pdMany := a.pdMany || r.fMany,
+  | .pas => { r with mapped := true, crash := r.crash || emitRaise o.emit a }
+  | _ => { a with crash := a.crash || r.crash || emitRaise o.emit a, pd2 := a.pd2 || r.f2, pdMany := a.pdMany || r.fMany,
                   pdNMany := a.pdNMany || r.nMany, pdSQ := a.pdSQ || r.fSQ }
 
 /-! ## Abstract interpreter -/
@@ -572,41 +589,79 @@ def WF.final (w : WF) (h : Hyps := {}) : AState := ainterp w.cfg h w.pass (init 
 
 /-! ## MachineModel.is_compatible (transcription) and its three-clause specification -/
 
-/-- A circuit as `is_compatible` sees it: width, radixes, the set of gates (as ids) and the
-coupling graph (pairs of qudits that share an operation). -/
+/-- An operation as `is_compatible` sees it: its gate (as an id), whether that gate is a
+`BarrierPlaceholder` / `MeasurementPlaceholder` / `Reset`, and its location. -/
+structure OpView where
+  gate : Nat
+  ph : Bool
+  loc : List Nat
+  deriving DecidableEq, Repr, Inhabited
+
+/-- A circuit as `is_compatible` sees it: radixes (their number is the width) and the operations
+in `for op in circuit` order. -/
 structure CircView where
   radixes : List Nat
-  gates : List Nat
-  edges : List (Nat × Nat)
+  ops : List OpView
 
 structure MachView where
   radixes : List Nat
   gates : List Nat
   edges : List (Nat × Nat)
 
-/-- `CouplingGraph.__contains__` after `fix: 514190c`: orientation is ignored. -/
+/-- `CouplingGraph.__contains__` after `fix: 514190c`: orientation is ignored (a pair with an
+index outside the graph is simply not an edge). -/
 def coupled (m : MachView) (p : Nat × Nat) : Bool :=
   m.edges.any (fun e => (e.1 == p.1 && e.2 == p.2) || (e.1 == p.2 && e.2 == p.1))
 
-/-- `MachineModel.is_compatible(circuit, placement)`, clause by clause in the code's order.
-`placement = none` is the code's default `list(range(circuit.num_qudits))`.  Indexing a placement
-that is too short raises in the code: `none`. -/
+/-- `itertools.combinations(location, 2)`. -/
+def pairsOf : List Nat → List (Nat × Nat)
+  | [] => []
+  | x :: xs => xs.map (fun y => (x, y)) ++ pairsOf xs
+
+/-- The qudit pairs the coupling clause visits, in its order: `for op in circuit if not
+isinstance(op.gate, placeholders) for q0, q1 in it.combinations(op.location, 2)`. -/
+def visitedPairs (cv : CircView) : List (Nat × Nat) :=
+  (cv.ops.filter (fun o => !o.ph)).flatMap (fun o => pairsOf o.loc)
+
+/-- `any((placement[q0], placement[q1]) not in self.coupling_graph for …)`: the generator is
+consumed in order; `some true` = an uncoupled pair was met first, `none` = `placement[q]` raised
+IndexError first. -/
+def scanPairs (m : MachView) (pl : List Nat) : List (Nat × Nat) → Option Bool
+  | [] => some false
+  | (a, b) :: rest =>
+    match pl[a]?, pl[b]? with
+    | some x, some y => if coupled m (x, y) then scanPairs m pl rest else some true
+    | _, _ => none
+
+/-- `any(r != self.radixes[placement[i]] for i, r in enumerate(circuit.radixes))`, consumed in
+order over `enumerate` (= `zipIdx`); `none` = an index raised first. -/
+def scanRadix (m : MachView) (pl : List Nat) : List (Nat × Nat) → Option Bool
+  | [] => some false
+  | (r, i) :: rest =>
+    match pl[i]? with
+    | none => none
+    | some p =>
+      match m.radixes[p]? with
+      | none => none
+      | some mr => if r == mr then scanRadix m pl rest else some true
+
+/-- `MachineModel.is_compatible(circuit, placement)` after `fix: 26675ef`, clause by clause in
+the code's order: width; gate set (placeholders skipped); coupling of EVERY pair of qudits of
+every non-placeholder operation through the placement; radixes.  `placement = none` is the code's
+default `list(range(circuit.num_qudits))`.  `none` = the code raises IndexError. -/
 def isCompatible (m : MachView) (cv : CircView) (placement : Option (List Nat)) : Option Bool :=
-  let pl := placement.getD (List.range cv.radixes.length)
-  let tooWide := decide (cv.radixes.length > m.radixes.length)
-  let foreign := cv.gates.any (fun g => !m.gates.contains g)
-  let badIndex := cv.edges.any (fun e => decide (pl.length ≤ e.1) || decide (pl.length ≤ e.2))
-        || decide (pl.length < cv.radixes.length)
-        || pl.any (fun p => decide (m.radixes.length ≤ p))
-  let uncoupledPair := cv.edges.any (fun e => !coupled m (pl.getD e.1 0, pl.getD e.2 0))
-  let radixMismatch := (List.range cv.radixes.length).any
-        (fun i => !(cv.radixes.getD i 0 == m.radixes.getD (pl.getD i 0) 0))
-  if tooWide then some false
-  else if foreign then some false
-  else if badIndex then none
-  else if uncoupledPair then some false
-  else if radixMismatch then some false
-  else some true
+  if cv.radixes.length > m.radixes.length then some false
+  else if cv.ops.any (fun o => !o.ph && !m.gates.contains o.gate) then some false
+  else
+    let pl := placement.getD (List.range cv.radixes.length)
+    match scanPairs m pl (visitedPairs cv) with
+    | none => none
+    | some true => some false
+    | some false =>
+      match scanRadix m pl cv.radixes.zipIdx with
+      | none => none
+      | some true => some false
+      | some false => some true
 
 /-! ## The submit / collect loop of `compile()` for a list of inputs -/
 
